@@ -37,3 +37,21 @@ func TestVerifC05Walk(t *testing.T) {
 		t.Fatal(err)
 	}
 }
+
+// T: all layers live in ONE database; 16 goroutines open, walk, clone, walk again and close their layers while the
+// others do the same (run under -race). The record of every layer is compared by TLC with the record of the same
+// blob opened alone (LayersIndependent; a Close of one layer must not disturb the walks of the others).
+func TestVerifC05Concurrent(t *testing.T) {
+	db, err := c05OpenDB(t, "c05-shared.db")
+	if err != nil {
+		t.Fatal(err)
+	}
+	defer db.Close()
+	store := func(sr *io.SectionReader, opts ...metadata.Option) (metadata.Reader, error) {
+		return NewReader(db, sr, opts...)
+	}
+	err = metadata.C05Run("db", 16, func(int) (metadata.Store, func(), error) { return store, func() {}, nil })
+	if err != nil {
+		t.Fatal(err)
+	}
+}
